@@ -203,6 +203,7 @@ func checkC04(c *core.Ctx) {
 		return
 	}
 	designWeather(c)
+	designSystem(c, "Cal")
 	ps := runOrReplay(c, func() []*gen.Project { return weatherProjects(c, c.Pick(12, 120)) })
 	if len(ps) == 0 {
 		return
